@@ -9,8 +9,14 @@ out = ["# Seeded changes\n",
        "Each directory holds a change to titpetric/vuego produced by an independent sub-agent that was given only the text of one property and a scratch worktree: `patch.diff` (applies to /repo HEAD at the time it was made), `demo/` (fails with the change, passes without), `notes.md`, `meta.json`. Every change compiles and passes the pinned suite; each was confirmed with `tools/confirmseed.sh` and run against the checks with `tools/trymutant.sh <patch> <id>` (scratch worktree, removed afterwards).\n",
        "| id | property | needs to manifest | detected by |", "|---|---|---|---|"]
 for m in rows:
-    out.append("| %s | %s | %s | %s |" % (m['id'], m['breaks_property'], m['needs_to_manifest'].replace('|', '/'), m['detected_by'].replace('|', '/')))
+    det = m['detected_by']
+    if os.path.exists('/verif/seeded/%s/patch.original.diff' % m['id']):
+        det += " [patch.diff carried over to the current tree by hand after later fixes touched the same code; the agent's own patch is patch.original.diff]"
+    if m.get('status'):
+        det += " [" + m['status'] + "]"
+    out.append("| %s | %s | %s | %s |" % (m['id'], m['breaks_property'], m['needs_to_manifest'].replace('|', '/'), det.replace('|', '/')))
 missed = [m for m in rows if m['detected_by'].startswith('MISSED')]
 out.append("\n%d changes kept; %d of them were missed by the check as it was when the change arrived and led to a strengthened check (noted in the 'detected by' column)." % (len(rows), len(missed)))
+out.append("\n`tools/selftest.sh` re-applies every kept change to a scratch worktree of /repo HEAD and expects the quick check named in its meta.json (`check`, default the property it breaks) to report a violation; changes marked neutralised are listed, not run.")
 open('/verif/seeded/README.md', 'w').write("\n".join(out) + "\n")
 print(len(rows), "seeded changes,", len(missed), "initially missed")
